@@ -286,6 +286,82 @@ func dencoStructural(c *Ctx, r2, r3, r4, r5 string) {
 		}
 		c.obI(r5, st, "names-by-position", ok, "the i-th captured value is named by the i-th placeholder name of the matched node", "")
 	}
+	// the BASE/CHECK array grows while the trie is built (append may move it): the address of a cell is never kept across
+	// a step that can grow the array — a flag set through a stale pointer lands in the abandoned copy and the node is
+	// not parameter-capable for the lookup
+	{
+		grows := func(in ssa.Instruction) bool {
+			ci, ok := in.(ssa.CallInstruction)
+			if !ok {
+				return false
+			}
+			switch calleeName(ci.Common()) {
+			case "(*rt/middleware/denco.doubleArray).build", "(*rt/middleware/denco.doubleArray).arrange", "(*rt/middleware/denco.doubleArray).findBase",
+				"(*rt/middleware/denco.doubleArray).extendBaseCheckArray", "(*rt/middleware/denco.doubleArray).setBase", "(*rt/middleware/denco.doubleArray).setCheck":
+				return true
+			}
+			return false
+		}
+		nCells := 0
+		for _, fn := range p.LibFuncs("rt/middleware/denco") {
+			if fn.Parent() != nil {
+				continue
+			}
+			var growCalls []ssa.Instruction
+			for _, in := range ownInstrs(fn) {
+				if grows(in) {
+					growCalls = append(growCalls, in)
+				}
+			}
+			if len(growCalls) == 0 {
+				continue
+			}
+			for _, in := range ownInstrs(fn) {
+				ia, ok := in.(*ssa.IndexAddr)
+				if !ok || !vFieldLoad("rt/middleware/denco.doubleArray", "bc", nil)(ia.X) || ia.Referrers() == nil {
+					continue
+				}
+				for _, ref := range *ia.Referrers() {
+					if _, isDbg := ref.(*ssa.DebugRef); isDbg {
+						continue
+					}
+					nCells++
+					stale := false
+					for _, g := range growCalls {
+						if g == ref {
+							continue
+						}
+						if pathExists(fn, ia, g, nil, nil) && pathExists(fn, g, ref, nil, isOneOf(ia)) {
+							stale = true
+						}
+					}
+					c.obI(r2, ref, "cell-address-not-kept-across-growth", !stale, "a cell of the BASE/CHECK array is addressed at the moment it is used: no step that can grow (and move) the array lies between taking &bc[i] and using it", "the address of a cell is used after a call that can grow the array")
+				}
+			}
+		}
+		c.obRF(r2, bld, "cell-uses-found", nCells >= 1, "build addresses cells of the BASE/CHECK array", "")
+	}
+	// BASE is an offset like any other — 0 included (findBase hands out 0 when the first child lands there): no step of
+	// the lookup is conditioned on a comparison of a cell's BASE with a constant
+	{
+		isBaseCmp := func(cond ssa.Value, branch bool) bool {
+			cnd, _ := stripNot(cond, branch)
+			bo, ok := cnd.(*ssa.BinOp)
+			if !ok {
+				return false
+			}
+			isBase := func(v ssa.Value) bool {
+				ok, _ := allOrigins(v, oCall(-1, "(rt/middleware/denco.baseCheck).Base"))
+				return ok
+			}
+			_, kx := bo.X.(*ssa.Const)
+			_, ky := bo.Y.(*ssa.Const)
+			return (isBase(bo.X) && ky) || (isBase(bo.Y) && kx)
+		}
+		for _, ci := range callsIn(lk, "rt/middleware/denco.nextIndex") {
+			c.obI(r5, ci, "transition-not-conditioned-on-base-value", !guardedBy(ci, nil, isBaseCmp), "the transition probes of the lookup (termination, parameter, wildcard) are not guarded by a test of the cell's BASE against a constant: BASE 0 is a legitimate offset", "the probe runs only behind a comparison of BASE with a constant: a node whose BASE happens to be that constant is never matched")
+		}
+	}
 	// the parameters handed back are this call's own memory, and whether a path is found does not depend on how much
 	// room the buffer has (SizeHint is a hint: a capacity test on the way would turn it into a limit)
 	ruleDencoParamsPerCall(c, r5)
